@@ -62,7 +62,7 @@ prop("C05", True,
      "cases = (left operand, operator, right operand). Non-trivial = an operand is a node-set of size != 1, a NaN, a whitespace-padded numeral, or the pair orders differently numerically and lexicographically; distinct by (operator, both operand values). The matrix part is exhaustive over the stated pool (noted in evidence), the random part is sampled.")
 prop("C06", True,
      "property-based testing (rapid): differential of arithmetic and numeric functions against IEEE-754 reference arithmetic; any error is a violation",
-     "Generated search: pairs of doubles (rapid.Float64 mixed with a boundary pool: non-integers, negatives, zeros, |x|<1, |x|>2^63, ties, NaN, infinities) under + - * div mod, unary minus chains, floor/ceiling/round, compound expressions, literal operand forms, and sum()/count() over nodes with fractional, negative, padded and non-numeric text (also delivered by a reverse axis); results compared NaN-aware with Go float64 arithmetic (math.Mod for mod). Any error from these operations is a violation.",
+     "Generated search: pairs of doubles (rapid.Float64 mixed with a boundary pool: non-integers, negatives, zeros, |x|<1, |x|>2^63, ties, NaN, infinities) under + - * div mod, unary minus chains, floor/ceiling/round, compound expressions, literal operand forms, node-set operands of the binary operators and of unary minus delivered by reverse axes, ancestor steps and caller-ordered variables (number() of a node-set is that of its first node in document order), and sum()/count() over nodes with fractional, negative, padded, non-numeric and out-of-range (+-Infinity, underflowing) numerals (also delivered by a reverse axis); results compared NaN-aware with Go float64 arithmetic (math.Mod for mod). Any error from these operations is a violation.",
      EVAL_NOTE + " Sums whose terms are not exactly representable are discarded (addition order is not fixed by the property). The sign of a zero result is only observed through a literal zero divisor.",
      "5.6",
      "cases = (operation, operand values). Non-trivial = an operand is not an integer-valued finite double (fraction, huge, zero, NaN, infinity) or a rounding tie; distinct by (operation class, operand values).")
@@ -90,7 +90,7 @@ prop("C11", True,
      "cases = (environment, expression, document). Non-trivial = a prefixed name test or namespaced variable is used (diff), every renaming case, every typed variable case, functions that are namespaced or shadow a builtin, every unbound-reference form; distinct by (expression, environment, document).")
 prop("C12", True,
      "property-based testing (rapid): differential of name()/local-name()/namespace-uri()/count()/lang() against the reference from every context node",
-     "Generated search: every node of every kind as context node x the three name functions without argument, with node-set variables, reverse-axis arguments and generated paths, count() of node-sets and of non-node-sets (error required); lang(L) from every node of documents whose xml:lang attributes come from a tag grammar (equal, case-different, prefix-with-hyphen, prefix-without-hyphen, empty, unrelated; overridden and reset deeper down; a no-namespace 'lang' decoy).",
+     "Generated search: every node of every kind as context node x the three name functions without argument, with node-set variables, reverse-axis arguments and generated paths, count() of node-sets and of non-node-sets (error required); lang(L) from every node of documents whose xml:lang attributes come from a tag grammar (equal, case-different, equal only under Unicode case folding - which must not match -, prefix-with-hyphen, prefix-without-hyphen, empty, unrelated; overridden and reset deeper down; a no-namespace 'lang' decoy). Document namespaces include a URI pair whose concatenations with local names collide ({urn:x}a-b vs {urn:xa-}b).",
      EVAL_NOTE, "5.12",
      "cases = (document, context node, call). Non-trivial = context node is not a no-namespace element, or the result is a {uri}local name, or an error is required; for lang: every (declared tag, queried tag, context kind) relation; distinct by those tuples.")
 prop("C13", True,
@@ -101,13 +101,13 @@ prop("C13", True,
      "cases = histories. Non-trivial = the history re-executes an earlier triple after other queries ran and some query bound a held slice as $v/$w; distinct by (expressions, operations, document).")
 prop("C16", True,
      "property-based testing (rapid): JSON values mapped directly to the documented tree and compared by parallel walk; truncations and token mutations must return an error",
-     "Generated search: JSON values (objects with duplicate/empty/odd keys, arrays, nested containers, empty containers, strings with escapes and surrogate pairs, numerals incl. -0, exponents, >2^63, subnormal; 1-3 top-level values) rendered with drawn whitespace and escape spellings; the cursor tree must equal the README mapping computed from the value (not from the text): #obj/#arr, member elements in source order, one text node per scalar, siblings never merged; number texts must read back to the same double with minimal digits. Strict prefixes, dropped structural characters and junk insertions that make the text invalid must yield a non-nil error.",
+     "Generated search: JSON values (objects with duplicate/empty/odd keys, arrays, nested containers up to depth 9 and occasionally wrapped in 60-140 further containers with members following the deep one, empty containers, strings and keys that spell structural characters ('{', ']', ','), strings with escapes and surrogate pairs, numerals incl. -0, exponents, >2^63, subnormal; 1-3 top-level values) rendered with drawn whitespace and escape spellings; the cursor tree must equal the README mapping computed from the value (not from the text): #obj/#arr, member elements in source order, one text node per scalar, siblings never merged; number texts must read back to the same double with minimal digits. Strict prefixes, dropped structural characters and junk insertions that make the text invalid must yield a non-nil error.",
      "encoding/json's json.Valid / Decoder are used only to discard mutations that happen to stay valid.",
      "5.16",
      "cases = (JSON value(s), rendering) and malformed texts. Non-trivial = depth >= 3 with both container kinds, or an empty container after a key, or a scalar following a container among siblings; malformed: every text; distinct by text.")
 prop("C17", True,
      "property-based testing (rapid): generated tag soup parsed by ReadHtml and compared with an independent recursion over html.Parse's DOM",
-     "Generated search: a doctype followed by random open/close/stray-close tags over a vocabulary chosen to trigger the tree builder's special cases (tables, select, template, script/style/textarea/title, void elements, svg/math/foreignObject, prefixed tag names), text, comments (also after </body>/</html>), attributes incl. duplicates, xmlns, xmlns:x, x:y and foreign-content attributes; the cursor tree must equal the harness's own plain walk of html.Parse's DOM (local names, attributes minus xmlns declarations with prefixes stripped, text, comments, everything in no namespace).",
+     "Generated search: a doctype followed by random open/close/stray-close tags over a vocabulary chosen to trigger the tree builder's special cases (tables, select, template, script/style/textarea/title, void elements, svg/math/foreignObject, prefixed tag names), text (with character references incl. referenced carriage returns, NUL and out-of-range references), comments (also after </body>/</html>), attributes incl. duplicates, xmlns, xmlns:x, x:y and foreign-content attributes; the cursor tree must equal the harness's own plain walk of html.Parse's DOM (local names, attributes minus xmlns declarations with prefixes stripped, text, comments, everything in no namespace).",
      "golang.org/x/net/html (the version /repo's go.mod pins) defines the expected DOM; names with more than one colon are discarded.",
      "5.17",
      "cases = HTML texts. Non-trivial = the DOM has >= 8 nodes and at least one of: childless last child, sibling after a depth >= 3 subtree, node after </html>, implied elements, foreign content, template; distinct by text.")
@@ -125,13 +125,13 @@ prop("C14", True,
      "cases = concurrent programs (document, expressions, shared $v, goroutines x operations x rounds) and CLI file trees. Non-trivial = >= 2 goroutines execute an expression over the shared node-set variable of >= 2 nodes; CLI: >= 8 files with -a or -m (multi-line blocks); distinct by (expressions, shared variable, goroutine count, document) resp. (flags, tree).")
 prop("C15", True,
      "property-based testing (rapid) + native coverage-guided fuzzing (go test -fuzz, thorough tier): recover-wrapped entry points over valid, mutated and raw expressions and documents",
-     "Generated search: expression strings from five sources (rendered typed ASTs, ill-typed ASTs, invalid-by-construction token mutations, token soup, raw Unicode) with boundary-value numeric and Unicode variables, nil variable values and hostile constants, executed from the root, an element and an attribute of a fixed or generated document; documents from three sources (valid XML/JSON/HTML serialisations, byte-level mutations, raw bytes) through ReadXml/ReadHtml/ReadJson. Every call runs under recover and a generous deadline: a panic, a nil result with a nil error, an unusable tree/result, an 'xpath query panic' error on a well-typed query, or a call that does not terminate twice within 60 s is a violation. Unmarshal is driven with eighteen kinds of unsupported target (error, never a panic). Thorough adds five native fuzz targets (FuzzExpr, FuzzXml, FuzzHtml, FuzzJson, FuzzPair) with the same oracle inside the target.",
-     "Process aborts (fatal errors, stack exhaustion) are seen as a shard dying without a report (exit 2 with the log). Inputs are limited to 64 KiB in the fuzz targets.",
+     "Generated search: expression strings from six sources (rendered typed ASTs, ill-typed ASTs, invalid-by-construction token mutations, token soup, raw Unicode, every string function over a variable holding arbitrary - also invalid UTF-8 - bytes with boundary positions) with boundary-value numeric and Unicode variables, nil variable values and hostile constants, executed from the root, an element and an attribute of a fixed or generated document; documents from three sources (valid XML/JSON/HTML serialisations, byte-level mutations, raw bytes) through ReadXml/ReadHtml/ReadJson. Every call runs under recover and a generous deadline: a panic, a nil result with a nil error, an unusable tree/result, an 'xpath query panic' error on a well-typed query, or a call that does not terminate twice within 60 s is a violation. Unmarshal is driven with twenty-two kinds of unsupported target (error, never a panic). Thorough adds five native fuzz targets (FuzzExpr, FuzzXml, FuzzHtml, FuzzJson, FuzzPair) with the same oracle inside the target.",
+     "Process aborts (fatal errors, stack exhaustion) are seen as a shard dying without a report (exit 2 with the log). Inputs are limited to 64 KiB (documents) and 512 bytes (expressions: parse time grows quadratically with nesting depth, and the fuzzing engine kills a worker whose input runs for 10 s) in the fuzz targets.",
      "5.15",
      "cases = inputs to BuildExpr/Exec/Read*. Non-trivial = expression of >= 3 tokens or document of >= 8 bytes; distinct by input (and variable values).")
 prop("C19", True,
      "property-based testing (rapid): target types built at run time with reflect.StructOf, expected field values recomputed from separate Exec calls and plain conversions, compared deeply",
-     "Generated search: target types built with reflect.StructOf (fields of kind string, bool, all int/uint widths, float32/64, slices of scalars, nested structs, slices of structs and of pointers to structs, pointer depth 0-3 on any tagged field, untagged fields holding sentinels), passed as *T, **T, ***T and *[]E with node-sets of size 0/1/n; every tagged field must equal its tag's result evaluated from the struct's node and converted per kind, slices one element per node in result order, untagged fields untouched; wrong-shaped results must give an error. Fifteen unsupported targets (nil, non-pointer struct, nil pointer, pointer to nil pointer, map, array, chan, func, 2-D slice, unexported tagged field, interface/map/array fields, *int, string) must give an error and never panic.",
+     "Generated search: target types built with reflect.StructOf (fields of kind string, bool, all int/uint widths, float32/64, slices of scalars, nested structs, slices of structs and of pointers to structs, pointer depth 0-3 on any tagged field, untagged fields holding sentinels - scalars and untagged named, pointed-to and embedded structs whose own fields carry tags -, tagged pointer fields that point to caller-owned values before the call), passed as *T, **T, ***T and *[]E with node-sets of size 0/1/n; every tagged field must equal its tag's result evaluated from the struct's node and converted per kind, slices one element per node in result order, untagged fields untouched all the way down, pointer fields freshly allocated (the value a field pointed to before the call is unchanged); wrong-shaped results must give an error. Twenty-two unsupported targets (nil, non-pointer struct, nil pointer, pointer to nil pointer, map, array, chan, func, 2-D slice, unexported tagged fields of string, struct, slice and pointer kind and an embedded unexported struct, interface/map/array fields, *int, string, nil inner pointers) must give an error and never panic.",
      "The tag results come from xsel.Exec itself (the property defines the field value as that result; C18 checks those results against the reference). Numeric results outside the field's range or NaN for integer fields are implementation-defined in Go and not judged.",
      "5.19",
      "cases = (document, select query, target type) and (unsupported target, result). Non-trivial = the target shape has a pointer, a nested struct or a slice of structs/pointers; every unsupported kind; distinct by (type shape, select).")
